@@ -1,0 +1,37 @@
+//go:build verif
+
+package config
+
+// Contracts for package config. Comments only; read by /verif (build tag "verif").
+
+// Type invariant of an accepted advertising interface as far as RA generation
+// needs it (established by the parser: C02/C03 carriers).
+//@ macro pluginsOK(ps) = forall(j, 0, len(ps), ps[j].tag != 0 && pluginOK(ps[j])) && forall(a, 0, len(ps), forall(b, a + 1, len(ps), pluginRank(dyn(ps[a])) <= pluginRank(dyn(ps[b]))))
+//@ macro ifiOK(ifi) = 0 <= ifi.DefaultLifetime && pluginsOK(ifi.Plugins)
+
+// C04: the forwarding flag handed to RouterAdvertisement must be a fresh read
+// of the interface's state (ghost token set by State.IPv6Forwarding).
+//@ ghost var fwdVal Bool
+//@ ghost var fwdName Int
+//@ ghost var fwdFresh Bool
+
+//@ macro raHeaderFrom(ra, ifi) = ra.CurrentHopLimit == ifi.HopLimit && ra.ManagedConfiguration == ifi.Managed && ra.OtherConfiguration == ifi.OtherConfig && ra.RouterSelectionPreference == ifi.Preference && ra.ReachableTime == ifi.ReachableTime && ra.RetransmitTimer == ifi.RetransmitTimer && !ra.MobileIPv6HomeAgent && !ra.NeighborDiscoveryProxy
+//@ macro optsSorted(opts) = forall(a, 0, len(opts), forall(b, a + 1, len(opts), optRank(dyn(opts[a])) <= optRank(dyn(opts[b]))))
+//@ macro optsKnown(opts) = forall(k, 0, len(opts), optRank(dyn(opts[k])) >= 1 && opts[k].val > 0)
+
+//@ func (Interface).RouterAdvertisement
+//@   requires P1: ifiOK(ifi)
+//@   requires T1 [C04]: ghost.fwdFresh && ghost.fwdName == ifi.Name && forwarding == ghost.fwdVal
+//@   assigns new heap(ndp.RouterAdvertisement), new mem(ndp.Option), new heap(ndp.PrefixInformation), new heap(ndp.RouteInformation), new heap(ndp.RecursiveDNSServer), new heap(ndp.DNSSearchList), new heap(ndp.MTU), new heap(ndp.LinkLayerAddress), new mem(netip.Addr), new mem(netip.Prefix), new mem(system.IP), new mem(system.Route), new mem(config.Misconfiguration), ghost.clockRead, ghost.lastAddrs, ghost.lastRoutes
+//@   loop 1 invariant R0 [C01,C04]: 0 <= rangeindex + 1 && rangeindex + 1 <= len(ifi.Plugins) && ra != nil && fresh(ra) && ifiOK(ifi)
+//@   loop 1 invariant R1 [C01,C04]: raHeaderFrom(ra, ifi) && ra.RouterLifetime == ifi.DefaultLifetime
+//@   loop 1 invariant R2 [C01]: optsSorted(ra.Options) && optsKnown(ra.Options)
+//@   loop 1 invariant R3 [C01]: forall(k, 0, len(ra.Options), forall(j, rangeindex + 1, len(ifi.Plugins), optRank(dyn(ra.Options[k])) <= pluginRank(dyn(ifi.Plugins[j]))))
+//@   ensures H1 [C01]: result2 == nil ==> result0 != nil && raHeaderFrom(result0, ifi)
+//@   ensures H2 [C04,C01,C08]: result2 == nil ==> result0.RouterLifetime == ite(forwarding, ifi.DefaultLifetime, 0)
+//@   ensures M1 [C04]: result2 == nil ==> len(result1) == b2i(!forwarding && ifi.DefaultLifetime > 0) && (len(result1) == 1 ==> result1[0] == 1)
+//@   ensures O1 [C01]: result2 == nil ==> optsSorted(result0.Options) && optsKnown(result0.Options)
+//@   ensures F1 [C01,C04]: result2 == nil ==> fresh(result0)
+//@   ensures X1 [C01]: result2 != nil ==> result0 == nil && result1 == nil
+//@   opt safety [C01,C04,C17]
+//@   opt frame [C01]
